@@ -53,6 +53,10 @@ def check(ctx, report):
     report.rule('C07.R10', 'OpenSSH certificate valid after / valid before: the primitive writes seconds since the epoch in UTC, all-ones for "forever"')
     flags_and_timestamps(ctx, report, R4='C07.R10', R5='C07.R10')
     report.floor('C07.R10', 100, 'tabulated flag words and instants')
+    from .c11 import fields_written_as_stored
+    fields_written_as_stored(ctx, report, RULE='C07.R13', kinds=None, modules={'cryptoparser.ssh.key', 'cryptoparser.ssh.subprotocol', 'cryptoparser.ssh.record'},
+                             title='SSH messages, keys and certificates: what the composer hands to a primitive is the stored attribute, never a constant in its place')
+    report.floor('C07.R13', 150, 'fields of SSH structures')
     report.floor('C07.R1', 80, 'layout comparisons')
 
 
